@@ -91,12 +91,15 @@ BlockCodecs == {"bp32", "bp64", "bpd32", "bpd64", "for", "pfor", "adaptive"}
 WorstShapes == WideShapes \cup {<<"outlast", 0>>, <<"outfirst", 0>>, <<"runs", 1>>, <<"runs", 241>>,
                                 <<"fewuniq", 257>>, <<"periodic", 10>>, <<"periodic", 20>>, <<"altbits", 64>>,
                                 <<"marker", 0>>, <<"marker", 4>>, <<"randw", 0>>}
+               \* size predictors switch at the width boundaries: values of exactly 2^b - 1
+               \cup {<<"altbits", b>> : b \in {8, 16, 24, 32, 40, 48, 56}}
 
 Applicable(c, n, s) ==
   CASE Purpose = "c03" ->
          /\ s \in WorstShapes
          /\ (s[1] = "periodic" => (c[1] = "adaptive" /\ n >= 2287))
          /\ (n > 4097 => s \in {<<"nine", 0>>, <<"outlast", 0>>, <<"periodic", 10>>})
+         /\ ((s[1] = "altbits" /\ s[2] # 64) => n \in CoreLensOf(c))
     [] OTHER ->
          /\ \/ n \in CoreLensOf(c) /\ s \in AllShapes
             \/ s \in CoreShapes
